@@ -461,6 +461,9 @@ int flatcc_builder_custom_reset(flatcc_builder_t *B, int set_defaults, int reduc
     B->pl = B->buffers[flatcc_builder_alloc_pl].iov_base;
     B->vs = B->buffers[flatcc_builder_alloc_vs].iov_base;
     B->frame = 0;
+    /* The user frame stack is per build state: an abandoned build may leave frames open. */
+    B->user_frame_offset = 0;
+    B->user_frame_end = 0;
     if (set_defaults) {
         B->vb_flush_limit = 0;
         B->max_level = 0;
